@@ -8,6 +8,7 @@ from typing import TYPE_CHECKING
 
 from .ast import IllegalNode
 from .ast import Node
+from .exceptions import ContextDepthError
 from .exceptions import LiquidError
 from .parser import eat_block
 
@@ -30,17 +31,31 @@ class Tag(ABC):
         """Wraps `Tag.parse`, possibly returning an `IllegalNode`."""
         try:
             return self.parse(stream)
+        except RecursionError as rec_err:
+            # Deeply nested expressions can exhaust the Python stack. Handle this
+            # like any other error found while parsing the tag.
+            depth_err = ContextDepthError(
+                "maximum recursion depth reached while parsing, "
+                "expression or partial template nested too deeply",
+                token=None,
+            )
+            depth_err.__cause__ = rec_err
+            return self._recover(stream, depth_err)
         except LiquidError as err:
-            token = stream.current
-            if not err.token:
-                err.token = token
+            return self._recover(stream, err)
 
-            self.env.error(err)
+    def _recover(self, stream: TokenStream, err: LiquidError) -> Node:
+        """Raise, warn or ignore _err_ and skip the rest of a malformed block."""
+        token = stream.current
+        if not err.token:
+            err.token = token
 
-            if self.block and hasattr(self, "end"):
-                eat_block(stream, (self.end,))
+        self.env.error(err)
 
-            return IllegalNode(token)
+        if self.block and hasattr(self, "end"):
+            eat_block(stream, (self.end,))
+
+        return IllegalNode(token)
 
     @abstractmethod
     def parse(self, stream: TokenStream) -> Node:
